@@ -158,6 +158,13 @@ func init() {
 		wit: func(a, k []*Term) *Term {
 			return Add(Mul(k[0], a[3]), Mul(k[1], a[1]), Mul(Mul(k[0], k[1]), a[4]))
 		}})
+	addCongRule(congRule{name: "cong_cancelW", params: []string{"a", "b", "c", "e", "q"},
+		side:  func(a []*Term) *Term { return Eq(Mul(a[4], a[2]), Add(ConstI(1), MulC(W64, a[3]))) },
+		hyps:  func(a []*Term) []triple { return []triple{{MulC(W64, a[0]), MulC(W64, a[1])}} },
+		concl: func(a []*Term) triple { return triple{a[0], a[1]} },
+		wit: func(a, k []*Term) *Term {
+			return Sub(Mul(Sub(a[0], a[1]), a[2]), Mul(k[0], a[3]))
+		}, doc: "q*c = 1 + 2^64*e,  a*2^64 ≡ b*2^64 (mod q)  =>  a ≡ b (mod q)   (2^64 is invertible modulo an odd q)"})
 	addCongRule(congRule{name: "cong_eq", params: []string{"a", "b", "a2", "b2", "q"},
 		side:  func(a []*Term) *Term { return And(Eq(a[0], a[2]), Eq(a[1], a[3])) },
 		hyps:  func(a []*Term) []triple { return []triple{{a[0], a[1]}} },
